@@ -675,7 +675,7 @@ def r_pair(P, R):
     if R.prop == 'C06':
         pair_counters(P, R)
         pair_collect(P, R, 'dd.bdd.BDD.collect_garbage')
-    if R.prop in ('C06', 'C07'):
+    if R.prop in ('C06', 'C07', 'C08'):
         pair_swap(P, R)
 r_pair.NAME = 'R-PAIR(node tables)'
 
@@ -958,6 +958,33 @@ def undeclare_rebuild(P, R):
                 f'{source}', unit=f.unit.rel, line=body[i_d].lineno)
         else:
             R.holds('R-INVMAP', f.qualname, what)
+    # the kept variables get their new level through the compaction map
+    if 'vars' in idx and isinstance(idx['vars'][1], ast.DictComp):
+        d = idx['vars'][1]
+        g = d.generators[0]
+        tnames = [au.src(e) for e in g.target.elts] if isinstance(
+            g.target, ast.Tuple) else []
+        val = d.value
+        through_map = isinstance(val, ast.Subscript) and au.is_name(
+            val.value, 'new_levels') and len(tnames) == 2 and au.src(
+                val.slice) == tnames[1] and au.src(d.key) == tnames[0] \
+            and au.src(g.iter).replace(' ', '') == 'self.vars.items()'
+        by_position = any(isinstance(c, ast.Call) and au.call_name(
+            c) == 'enumerate' for c in ast.walk(d))
+        if through_map:
+            R.holds('R-INVMAP', f.qualname, 'each kept variable is mapped '
+                    'to new_levels[old level]')
+        elif by_position:
+            R.violation(
+                'R-INVMAP', 'vars-renumbered', f.qualname, 'vars',
+                f'`{au.short(d, 80)}` numbers the kept variables by their '
+                'position in the dictionary, not through the old->new '
+                'level map that is applied to the nodes: after a swap the '
+                'names no longer match the levels of the nodes',
+                unit=f.unit.rel, line=d.lineno)
+        else:
+            R.undecided('R-INVMAP', f.qualname, 'new vars',
+                        'unrecognised form')
     # compaction map: enumerate over an ascending range -> order preserving
     ok = False
     for s in au.walk_no_defs(f.node):
